@@ -9,7 +9,7 @@ from ..cfg import NORMAL, Node, handler_classes
 from ..core import Ctx
 from ..flow import ALL, find_path, names_in
 from ..model import AnalysisError, FunctionInfo, dotted, norm_text
-from .common import edge_target, resolve_value, effective_returns, handler_exits, handler_nodes, in_handler, in_try_body, kwarg, reachable_from
+from .common import edge_target, resolve_value, judged_in_callers, effective_returns, handler_exits, handler_nodes, in_handler, in_try_body, kwarg, reachable_from
 
 EXPLANATION = (
     "Static analysis of the pruning decision: (R1) ORDER-TYPE abstract interpretation - _file_may_match touches file_min, "
@@ -733,7 +733,46 @@ def r5r6(ctx: Ctx) -> None:
            "the statistics describe exactly the rows in the file")
 
 
+def bounds_producers(ctx: Ctx, rid: str = "C13.R9") -> None:
+    ctx.rule(rid, "who may produce bounds: the lower_bounds / upper_bounds of every DataFile built in the package come from "
+             "_compute_column_bounds (pc.min / pc.max over the very rows written), from the manifest decoder, or are copied from "
+             "another DataFile - no second statistics source (parquet footer statistics may be absent or truncated per row group: "
+             "bounds narrower than the data prune files that hold matching rows)", 6)
+    n_sites = 0
+    for f in sorted(ctx.prog.functions.values(), key=lambda x: x.qname):
+        if isinstance(f.node, ast.Lambda) or judged_in_callers(ctx, f):
+            continue
+        g = ctx.cfg(f)
+        for n in g.calls():
+            if n.id not in g.reachable() or not isinstance(n.ast, ast.Call):
+                continue
+            is_ctor = n.callee is not None and n.callee.kind == "ctor" and n.callee.cls is not None and n.callee.cls.name == "DataFile"
+            is_replace = (dotted(n.ast.func) or "").split(".")[-1] == "replace" and any(k.arg in ("lower_bounds", "upper_bounds") for k in n.ast.keywords)
+            if not (is_ctor or is_replace):
+                continue
+            for k in n.ast.keywords:
+                if k.arg not in ("lower_bounds", "upper_bounds"):
+                    continue
+                n_sites += 1
+                org = ctx.slicer(f).origins(k.value, n.id)
+                srcs = [x for x, _a in resolve_value(ctx, f, k.value, n.id)]
+                computed = any(isinstance(c, ast.Call) and (dotted(c.func) or "").split(".")[-1] in ("_compute_column_bounds", "_decode_bound")
+                               for c in org["calls"]) or any(nm.split(".")[-1] == "_decode_bound" for nm in org["names"])
+                copied = any(nm.endswith("." + k.arg) for nm in org["names"])
+                deser = any(isinstance(c, ast.Call) and isinstance(c.func, ast.Attribute) and c.func.attr == "get" and c.args
+                            and isinstance(c.args[0], ast.Constant) and c.args[0].value == k.arg for c in org["calls"])
+                none = bool(srcs) and all(isinstance(x, ast.Constant) and x.value is None for x in srcs)
+                ok = computed or copied or deser or none
+                ctx.ob(rid, f, f"{k.arg} of a new DataFile has a sanctioned source", n, ok,
+                       ("computed by _compute_column_bounds" if computed else "copied / deserialised / absent") if ok else
+                       f"`{norm_text(k.value)[:60]}` is neither _compute_column_bounds' result, a decoded manifest value nor a copy: "
+                       "an unverified statistics source decides which files a filtered scan skips", text=k.arg)
+    if n_sites < 6:
+        raise AnalysisError(f"only {n_sites} DataFile bound sites found")
+
+
 def check(ctx: Ctx) -> None:
+    bounds_producers(ctx)
     r1r2(ctx)
     r3(ctx)
     r4(ctx)
@@ -746,3 +785,6 @@ def check(ctx: Ctx) -> None:
         o.rule = "C13.R7"
     ctx.rule_text["C13.R7"] = ctx.rule_text.pop("C11.R1")
     ctx.floors["C13.R7"] = ctx.floors.pop("C11.R1")
+    # ... and only if the name -> id mapping used for the lookup is the current one: the read path keeps no memo
+    from .c02 import r6 as c02_r6
+    ctx.shared(c02_r6, "C02.R6", "C13.R8", "a remembered schema looks bounds up under another column's id")
